@@ -2,13 +2,19 @@ SPECIFICATION Spec
 CONSTANTS
   NW = 4
   NC = 2
-  Inc = {0,1,6,12}
+  Inc = {0,1,12}
   Thr = 10
   Mode = "all"
   Contig = FALSE
+  Hows = {"set","obs"}
+  NatStep = 10
+  ObsPos = {9,11,19,21,31,39,41}
   Export = FALSE
 INVARIANT TxPointwiseLicensed
 INVARIANT EmPointwiseLicensed
+INVARIANT TxRunLicensed
+INVARIANT EmRunLicensed
 INVARIANT TxSubNotDarker
+INVARIANT ObsContiguous
 CONSTRAINT Emit
 CHECK_DEADLOCK FALSE
